@@ -44,7 +44,7 @@ def failOpt (optional : Bool) : Except Err (Option Node) :=
   if optional then .ok none else .error .resolution
 
 /-- one segment, by kind, as the property describes it -/
-def stepSpec (k : SegKind) (opt : Bool) (cur : Option Node) : Except Err (Option Node) :=
+def stepSpec (lenient : Bool) (k : SegKind) (opt : Bool) (cur : Option Node) : Except Err (Option Node) :=
   match k with
   | .identity => .ok cur
   | .iterator =>
@@ -77,10 +77,12 @@ def stepSpec (k : SegKind) (opt : Bool) (cur : Option Node) : Except Err (Option
     | some (.bytes bs) => .ok (some (.bytes (pySlice bs lo hi)))
     | some (.str s) => .ok (some (.str (Utf8.encode (pySlice (Utf8.decode s) lo hi))))   -- by character
     | none => failOpt opt
-    | _ => .error .resolution
+    -- C12 speaks of failing optional FIELD and INDEX segments ("no value") and of failing non-optional segments (an error); an
+    -- optional slice on a value that cannot be sliced is left open: `lenient` says which of the two the implementation does
+    | _ => if lenient && opt then .ok none else .error .resolution
 
 /-- resolving a selector = resolving its segments one after the other -/
-def resolveSpec (segs : List Seg) (cur : Option Node) : Except Err (Option Node) :=
-  segs.foldlM (fun c s => stepSpec (classify s) s.optional c) cur
+def resolveSpec (lenient : Bool) (segs : List Seg) (cur : Option Node) : Except Err (Option Node) :=
+  segs.foldlM (fun c s => stepSpec lenient (classify s) s.optional c) cur
 
 end Ucan.Selector
